@@ -103,6 +103,18 @@ var props = map[string]propCfg{
 			for _, x := range base.list {
 				s.add("html-all-minus-lt-eq", withoutBytes(x, "<="))
 			}
+			// the same inputs with '<' and '=' replaced by runes that have the same low byte
+			// (U+013C / U+013D, U+043C / U+043D): still no '<' and no '=' byte in the string
+			for i, x := range base.list {
+				if i%3 != 0 || !strings.ContainsAny(x, "<=") {
+					continue
+				}
+				tw := strings.NewReplacer("<", "\u013c", "=", "\u013d")
+				if i%2 == 0 {
+					tw = strings.NewReplacer("<", "\u043c", "=", "\u043d")
+				}
+				s.add("html-all-lt-eq-as-low-byte-twins", tw.Replace(x))
+			}
 			var alpha []string
 			for _, a := range htmlAlphabet {
 				if !strings.ContainsAny(a, "<=") {
